@@ -16,6 +16,8 @@ import (
 	"hash/fnv"
 	"strconv"
 	"strings"
+	"sync"
+	"time"
 	"unicode/utf8"
 
 	"git.sr.ht/~rockorager/vaxis"
@@ -817,10 +819,12 @@ func getVx(k vxKey) (*vaxis.Vaxis, error) {
 	return vx, nil
 }
 
-func doRender(r *hx.Run, sw, sh int, root *rnode) (string, string, error) {
+// doRender paints root on a sentinel screen through a hook: kind "render" = VerifC14RenderRoot (the
+// render call of App.Run), kind "bare" = VerifC14Render (the bare recursive render).
+func doRender(r *hx.Run, kind string, sw, sh int, root *rnode) (string, string, error) {
 	var sb strings.Builder
 	root.write(&sb, 0)
-	op := fmt.Sprintf("render %dx%d %s", sw, sh, sb.String())
+	op := fmt.Sprintf("%s %dx%d %s", kind, sw, sh, sb.String())
 	vx, err := getVx(vxKey{sw, sh})
 	if err != nil {
 		return "", "", err
@@ -842,10 +846,14 @@ func doRender(r *hx.Run, sw, sh int, root *rnode) (string, string, error) {
 	}
 	s := root.surface()
 	panicked, msg := hx.Guard(func() {
-		vxfw.VerifC14Render(s, vx.Window())
+		if kind == "bare" {
+			vxfw.VerifC14Render(s, vx.Window())
+		} else {
+			vxfw.VerifC14RenderRoot(s, vx.Window())
+		}
 	})
 	if panicked {
-		r.Count("render-panic: " + normMsg(msg))
+		r.Count(kind + "-panic: " + normMsg(msg))
 		return op, "panic", nil
 	}
 	var cells []string
@@ -857,11 +865,189 @@ func doRender(r *hx.Run, sw, sh int, root *rnode) (string, string, error) {
 		}
 	}
 	if len(cells) == 0 {
-		r.Count("render:paints-nothing")
+		r.Count(kind + ":paints-nothing")
 		return op, "-", nil
 	}
-	r.Count("render:paints-something")
+	r.Count(kind + ":paints-something")
 	return op, strings.Join(cells, " "), nil
+}
+
+// ---------------------------------------------------------------------------------------------
+// run: one frame of the real App.Run
+
+// syncEv is delivered to the root widget after the frame: the frame is complete when it arrives.
+type syncEv struct{}
+
+// frameW is a root widget whose Draw returns a fixed hand-built surface tree.
+type frameW struct {
+	root   *rnode
+	drawn  chan int
+	parked chan struct{}
+	resume chan struct{}
+	nDraw  int
+}
+
+func (w *frameW) Draw(ctx vxfw.DrawContext) (vxfw.Surface, error) {
+	s := w.root.surface()
+	s.Widget = w
+	w.nDraw++
+	select {
+	case w.drawn <- w.nDraw:
+	default:
+	}
+	return s, nil
+}
+
+func (w *frameW) HandleEvent(ev vaxis.Event, ph vxfw.EventPhase) (vxfw.Command, error) {
+	if _, ok := ev.(syncEv); ok {
+		w.parked <- struct{}{}
+		<-w.resume
+		return vxfw.QuitCmd{}, nil
+	}
+	return nil, nil
+}
+
+type runRes struct {
+	rows     [][]vaxis.Cell
+	panicked bool
+	hang     bool
+	msg      string
+	err      error
+}
+
+const runTimeout = 20 * time.Second
+
+// runFrameReal starts a real App on a fake console of sw x sh, lets App.Run paint one frame of the
+// widget and returns the screen (vaxis' next-frame buffer) as the frame left it. Run draws once
+// before its loop (layout for the mouse handler) and once per frame: the second Draw call starts the
+// frame; a custom event posted then is handled after the frame is complete.
+func runFrameReal(sw, sh int, root *rnode) runRes {
+	fc := fakeconsole.New(sw, sh, fakeconsole.FromMask(0))
+	app, err := vxfw.NewApp(vaxis.Options{WithConsole: fc, NoSignals: true})
+	if err != nil {
+		return runRes{err: err}
+	}
+	vx := vxfw.VerifC14AppVaxis(app)
+	w := &frameW{root: root, drawn: make(chan int, 8), parked: make(chan struct{}), resume: make(chan struct{})}
+	done := make(chan string, 1)
+	go func() {
+		defer func() {
+			if e := recover(); e != nil {
+				done <- fmt.Sprint(e)
+			}
+		}()
+		_ = app.Run(w)
+		done <- ""
+	}()
+	app.PostEvent(vaxis.Redraw{})
+	deadline := time.After(runTimeout)
+	for {
+		select {
+		case n := <-w.drawn:
+			if n == 2 {
+				app.PostEvent(syncEv{})
+			}
+		case <-w.parked:
+			rows := vx.VerifC11NextCells()
+			w.resume <- struct{}{}
+			select {
+			case <-done:
+			case <-time.After(runTimeout):
+				return runRes{hang: true}
+			}
+			return runRes{rows: rows}
+		case msg := <-done:
+			if msg == "" {
+				return runRes{err: fmt.Errorf("App.Run returned before the frame was painted")}
+			}
+			return runRes{panicked: true, msg: msg}
+		case <-deadline:
+			return runRes{hang: true}
+		}
+	}
+}
+
+var blank = vaxis.Cell{Character: vaxis.Character{Grapheme: " ", Width: 1}}
+
+type runCase struct {
+	sw, sh int
+	root   *rnode
+	counts []string
+}
+
+func runOpLine(sw, sh int, root *rnode) string {
+	var sb strings.Builder
+	root.write(&sb, 0)
+	return fmt.Sprintf("run %dx%d %s", sw, sh, sb.String())
+}
+
+// canonRun turns the result of one real frame into the impl string (main goroutine only: gid and
+// the counters are not synchronised).
+func canonRun(r *hx.Run, sw, sh int, res runRes) (string, error) {
+	switch {
+	case res.err != nil:
+		return "", res.err
+	case res.hang:
+		r.Count("run:hang")
+		return "hang", nil
+	case res.panicked:
+		r.Count("run-panic: " + normMsg(res.msg))
+		return "panic", nil
+	}
+	if len(res.rows) != sh {
+		return "", fmt.Errorf("run: screen has %d rows, want %d", len(res.rows), sh)
+	}
+	var cells []string
+	for y, row := range res.rows {
+		if len(row) != sw {
+			return "", fmt.Errorf("run: screen has %d columns, want %d", len(row), sw)
+		}
+		for x, c := range row {
+			if c != blank {
+				cells = append(cells, fmt.Sprintf("%d,%d,%d,%d,%d", x, y, gid(c.Grapheme), c.Width, styleTag(c.Style)))
+			}
+		}
+	}
+	if len(cells) == 0 {
+		r.Count("run:paints-nothing")
+		return "-", nil
+	}
+	r.Count("run:paints-something")
+	return strings.Join(cells, " "), nil
+}
+
+// emitRuns runs the cases on a few goroutines (each frame waits for App.Run's 8 ms tick) and emits
+// them in order.
+func emitRuns(r *hx.Run, cases []runCase) error {
+	res := make([]runRes, len(cases))
+	var wg sync.WaitGroup
+	next := make(chan int, len(cases))
+	for i := range cases {
+		next <- i
+	}
+	close(next)
+	for k := 0; k < 8; k++ {
+		wg.Add(1)
+		go func() {
+			defer wg.Done()
+			for i := range next {
+				res[i] = runFrameReal(cases[i].sw, cases[i].sh, cases[i].root)
+			}
+		}()
+	}
+	wg.Wait()
+	for i, c := range cases {
+		impl, err := canonRun(r, c.sw, c.sh, res[i])
+		if err != nil {
+			return err
+		}
+		r.Emit(runOpLine(c.sw, c.sh, c.root), impl)
+		r.Count("kind:run")
+		for _, k := range c.counts {
+			r.Count(k)
+		}
+	}
+	return nil
 }
 
 func kCell(k int) vaxis.Cell {
@@ -910,12 +1096,12 @@ func (g *treeGen) kids(p *rnode, depth int) {
 	}
 }
 
-func randTree(r *hx.Run, rng *gen.Rng, sw, sh int) *rnode {
+func randTree(r *hx.Run, rng *gen.Rng, kind string, sw, sh int, otherSize int) *rnode {
 	g := &treeGen{rng: rng}
 	w, h := sw, sh
-	if rng.Chance(3, 10) {
+	if rng.Chance(otherSize, 10) {
 		w, h = rng.Range(0, sw+2), rng.Range(0, sh+2)
-		r.Count("render:root-size!=screen")
+		r.Count(kind + ":root-size!=screen")
 	}
 	root := g.node(0, 0, 0, w, h)
 	g.kids(root, 0)
@@ -929,26 +1115,56 @@ func randTree(r *hx.Run, rng *gen.Rng, sw, sh int) *rnode {
 		}
 		if len(n.buf) > 0 && rng.Bool() {
 			n.buf = n.buf[:rng.Intn(len(n.buf))]
-			r.Count("render:malformed-short")
+			r.Count(kind + ":malformed-short")
 		} else {
 			n.buf = append(n.buf, fullBuf(k, rng.Range(1, 3))...)
-			r.Count("render:malformed-long")
+			r.Count(kind + ":malformed-long")
 			if n.w == 0 {
-				r.Count("render:malformed-long,width0")
+				r.Count(kind + ":malformed-long,width0")
 			}
 		}
 	}
-	r.Count(fmt.Sprintf("render:nodes=%02d", (len(g.nodes)+4)/5*5))
+	r.Count(fmt.Sprintf("%s:nodes=%02d", kind, (len(g.nodes)+4)/5*5))
 	return root
 }
 
-func emitRender(r *hx.Run, sw, sh int, root *rnode) error {
-	op, impl, err := doRender(r, sw, sh, root)
+func emitRender(r *hx.Run, sw, sh int, root *rnode) error { return emitHook(r, "render", sw, sh, root) }
+
+func emitHook(r *hx.Run, kind string, sw, sh int, root *rnode) error {
+	op, impl, err := doRender(r, kind, sw, sh, root)
 	if err != nil {
 		return err
 	}
 	r.Emit(op, impl)
-	r.Count("kind:render")
+	r.Count("kind:" + kind)
+	return nil
+}
+
+// rootFamily: a 4x3 screen, every root size 0..5 x 0..4 (smaller, equal, larger than the screen),
+// one 2x2 child at offsets around the root's corners, with a 1x1 grandchild poking out of it.
+func rootFamily(f func(sw, sh int, root *rnode, key string) error) error {
+	for rw := 0; rw <= 5; rw++ {
+		for rh := 0; rh <= 4; rh++ {
+			for _, c := range []int{-1, 0, 1, 3} {
+				for _, rr := range []int{-1, 0, 2} {
+					root := &rnode{w: rw, h: rh, buf: fullBuf(0, rw*rh)}
+					ch := &rnode{col: c, row: rr, z: 0, w: 2, h: 2, buf: fullBuf(1, 4)}
+					ch.kids = []*rnode{{col: 1, row: 1, w: 2, h: 1, buf: fullBuf(2, 2)}}
+					root.kids = []*rnode{ch}
+					key := "root=screen"
+					switch {
+					case rw < 4 || rh < 3:
+						key = "root<screen"
+					case rw > 4 || rh > 3:
+						key = "root>screen"
+					}
+					if err := f(4, 3, root, key); err != nil {
+						return err
+					}
+				}
+			}
+		}
+	}
 	return nil
 }
 
@@ -1048,12 +1264,56 @@ func genRender(r *hx.Run, rng *gen.Rng) error {
 	}
 	for i := 0; i < n; i++ {
 		sw, sh := rng.Range(1, 6), rng.Range(1, 4)
-		if err := emitRender(r, sw, sh, randTree(r, rng, sw, sh)); err != nil {
+		if err := emitRender(r, sw, sh, randTree(r, rng, "render", sw, sh, 3)); err != nil {
 			return err
 		}
 		r.Count("render:random")
 	}
-	return nil
+	// root surface smaller / larger than the screen (the root clips its children: F114)
+	if err := rootFamily(func(sw, sh int, root *rnode, key string) error {
+		r.Count("render:family-root-size," + key)
+		return emitRender(r, sw, sh, root)
+	}); err != nil {
+		return err
+	}
+
+	// bare: the recursive render without the root window of App.Run
+	rb := rng.Fork(7)
+	nb := 300
+	if r.Thorough {
+		nb = 4000
+	}
+	for i := 0; i < nb; i++ {
+		sw, sh := rb.Range(1, 6), rb.Range(1, 4)
+		if err := emitHook(r, "bare", sw, sh, randTree(r, rb, "bare", sw, sh, 6)); err != nil {
+			return err
+		}
+	}
+
+	// run: the same trees as the root surface of a frame of the real App.Run
+	var cases []runCase
+	if err := rootFamily(func(sw, sh int, root *rnode, key string) error {
+		cases = append(cases, runCase{sw, sh, root, []string{"run:family-root-size," + key}})
+		return nil
+	}); err != nil {
+		return err
+	}
+	rr := rng.Fork(8)
+	nr := 500
+	if r.Thorough {
+		nr = 6000
+	}
+	for i := 0; i < nr; i++ {
+		sw, sh := rr.Range(1, 6), rr.Range(1, 4)
+		cases = append(cases, runCase{sw, sh, randTree(r, rr, "run", sw, sh, 6), []string{"run:random"}})
+	}
+	for _, b := range bigs[:1] {
+		first := 65536 / b.w
+		big := &rnode{col: 0, row: -first, z: 0, w: b.w, h: b.h, buf: rowBuf(b.w, b.h)}
+		cases = append(cases, runCase{6, 4, &rnode{w: 6, h: 4, buf: fullBuf(0, 24), kids: []*rnode{big}}, []string{"run:big-surface"}})
+		cases = append(cases, runCase{6, 4, &rnode{w: 3, h: 2, buf: fullBuf(0, 6), kids: []*rnode{big}}, []string{"run:big-surface"}})
+	}
+	return emitRuns(r, cases)
 }
 
 // ---------------------------------------------------------------------------------------------
@@ -1272,7 +1532,7 @@ func runOp(r *hx.Run, f []string) (op, impl string, ok bool) {
 			return "", "", false
 		}
 		return doDraw(r, dctx{v[0], v[1], v[2], v[3]}, w)
-	case "render":
+	case "render", "bare", "run":
 		if len(f) != 3 {
 			return "", "", false
 		}
@@ -1289,7 +1549,14 @@ func runOp(r *hx.Run, f []string) (op, impl string, ok bool) {
 		if !ok {
 			return "", "", false
 		}
-		op, impl, err := doRender(r, sw, sh, root)
+		if f[0] == "run" {
+			impl, err := canonRun(r, sw, sh, runFrameReal(sw, sh, root))
+			if err != nil {
+				return "", "", false
+			}
+			return runOpLine(sw, sh, root), impl, true
+		}
+		op, impl, err := doRender(r, f[0], sw, sh, root)
 		if err != nil {
 			return "", "", false
 		}
@@ -1332,6 +1599,8 @@ func run(r *hx.Run) error {
 	r.Note("exhaustive", false)
 	r.Note("ws", "all sizes W,H in {0,1,2,255,256,257,300} x boundary classes of col {0,1,W-1,W,W+1,65535} and row {0,1,H-1,H,H+1,H/2,65535,(218,219 for W=300)}; same in both tiers")
 	r.Note("draw", "13 widget shapes (T h/s, R h/s, F, B, Center nestings to depth 3) x Max in V x V, V={0,1,2,3,5,80,255,256,65534,65535}, x fixed contents (quick: 4-5 per constraint, thorough: all 11), plus random contents/constraints/nonzero Min; thorough adds a 65536-line text; lines from the real scanners; Center/Button with Max.W*Max.H > 2e6 (both bounded) skipped")
-	r.Note("render", "hand-built Surface trees on screens 1..6 x 1..4: families (one 2x2 child at every offset with a 1x1 grandchild; two 2x1 children with z pairs) and random trees (depth<=3, <=4 children, offsets [-2,parent+2], z in {-1,0,0,1,2}, ~3% malformed buffers)")
+	r.Note("render", "hand-built Surface trees on screens 1..6 x 1..4 painted through the hook that evaluates App.Run's render call: families (one 2x2 child at every offset with a 1x1 grandchild; two 2x1 children with z pairs; every root size 0..5 x 0..4 on a 4x3 screen with a child around the root's corners) and random trees (depth<=3, <=4 children, offsets [-2,parent+2], z in {-1,0,0,1,2}, ~3% malformed buffers); surfaces with more than 65535 cells")
+	r.Note("run", "the root-size family, random trees (60% with a root size different from the screen) and a >65535-cell surface as the root surface of one frame of the real App.Run on a fake console")
+	r.Note("bare", "random trees through the bare recursive render (hook VerifC14Render)")
 	return nil
 }
